@@ -9,7 +9,7 @@ using namespace cfg;
 
 template <class F>
 inline void with_range(int src, const std::vector<int> &vals, F &&f) {
-  with_range_t<T>(src, vals, std::forward<F>(f));
+  with_range_t<T, true>(src, vals, std::forward<F>(f));  // vectors also take ranges of a converting value_type
 }
 
 // ---- pool -----------------------------------------------------------------------------------------------------
